@@ -35,6 +35,16 @@ fn rcv_join_ok<C: MlsConfig>(rc: Option<mls_rs::group::ReinitClient<C>>, wm: &Ml
     }
 }
 
+const JOIN_CLASSES: [&str; 7] = ["ok", "NotASubgroup", "ProtocolVersionMismatch", "CipherSuiteMismatch", "InitialEpochNotOne", "GroupIdMismatch", "ReInitExtensionsMismatch"];
+
+/// `join` row of the model (`Resumption.joinChecks`): expected version/suite/group id/extensions against the joined group's
+/// version/suite/epoch/group id/extensions (ids and extensions as 0 = the announced one, 1 = another one)
+fn join_row(qa: &mut QA, kind: &str, old: &[usize], new: &[usize], suite: u16, gg: u8, gx: u8, class: &str) {
+    if JOIN_CLASSES.contains(&class) {
+        qa.put(&format!("join {kind} {} {} 1 {suite} 0 0 1 {suite} 1 {gg} {gx}", list(old), list(new)), class);
+    }
+}
+
 /// commit by `c` built with `f`, applied by `c`, processed by every other member that has a group
 fn commit_all<C: MlsConfig>(
     w: &mut World<C>,
@@ -241,9 +251,13 @@ fn scenario<C: MlsConfig>(rng: &mut Rng, mk: Mk<C>, out: &mut Out, qa: &mut QA, 
                             if !ok {
                                 last = "joined but disagrees with the creator".into();
                             }
+                            join_row(qa, "reinit", &old_ids, &new_ids, 1, 0, 0, "ok");
                             break;
                         }
-                        Err(e) => last = err_class(&e),
+                        Err(e) => {
+                            last = err_class(&e);
+                            join_row(qa, "reinit", &old_ids, &new_ids, 1, 0, 0, &last);
+                        }
                     }
                 }
                 drop(rc);
@@ -279,6 +293,48 @@ fn scenario<C: MlsConfig>(rng: &mut Rng, mk: Mk<C>, out: &mut Out, qa: &mut QA, 
                     }
                 }
                 drop(rcv);
+            }
+            // a dishonest old member (it has the resumption secret) creates the successor with parameters other than the ones
+            // announced by the ReInit proposal: another group id, other group context extensions. Old members' ReinitClients
+            // must refuse those Welcomes (GroupIdMismatch / ReInitExtensionsMismatch), although the PSK is the right one.
+            for dev in ["group-id", "extensions"] {
+                let mut drc = match w.group(creator).clone().get_reinit_client(None, None) {
+                    Ok(x) => x,
+                    Err(_) => break,
+                };
+                match dev {
+                    "group-id" => drc.verif_deviate(Some(rng.bytes(8)), None),
+                    _ => {
+                        let (xid, _) = make_identity("xs", w.members[creator].setup.suite);
+                        let mut gce = mls_rs::ExtensionList::new();
+                        gce.set_from(mls_rs::extension::built_in::ExternalSendersExt::new(vec![xid])).unwrap();
+                        drc.verif_deviate(None, Some(gce))
+                    }
+                }
+                let mut kps2 = vec![];
+                for (i, _) in rcs.iter() {
+                    kps2.push(w.group(*i).clone().get_reinit_client(None, None).unwrap().generate_key_package(None).unwrap());
+                }
+                if let Ok((_g2, welcomes2)) = drc.commit(kps2, Default::default(), None) {
+                    for (i, _) in rcs.iter() {
+                        for wm in &welcomes2 {
+                            out.cases += 1;
+                            let r = w.group(*i).clone().get_reinit_client(None, None).unwrap().join(wm, None, None);
+                            let class = match &r {
+                                Ok(_) => "ok".to_string(),
+                                Err(e) => err_class(e),
+                            };
+                            let (gg, gx) = if dev == "group-id" { (1, 0) } else { (0, 1) };
+                            join_row(qa, "reinit", &old_ids, &new_ids, 1, gg, gx, &class);
+                            if r.is_ok() {
+                                out.fails.push(format!("old member {i} joined a successor whose {dev} differs from the one announced by the ReInit proposal"));
+                            }
+                        }
+                    }
+                    if !rcs.is_empty() {
+                        out.cover.insert(format!("deviating-successor:{dev}"));
+                    }
+                }
             }
             // an old member using a plain join (without the old group's resumption secret) is refused as well
             if let Some((i, _)) = rcs.first() {
@@ -329,9 +385,14 @@ fn scenario<C: MlsConfig>(rng: &mut Rng, mk: Mk<C>, out: &mut Out, qa: &mut QA, 
                     match w.group(i).join_subgroup(wm, None, None) {
                         Ok((g, _)) => {
                             ok = g.epoch_authenticator().ok().map(|s| s.as_bytes().to_vec()) == newg.epoch_authenticator().ok().map(|s| s.as_bytes().to_vec());
+                            // the branch has a group id of its own: not compared
+                            join_row(qa, "branch", &old_ids, &new_ids, 1, 1, 0, "ok");
                             break;
                         }
-                        Err(e) => last = err_class(&e),
+                        Err(e) => {
+                            last = err_class(&e);
+                            join_row(qa, "branch", &old_ids, &new_ids, 1, 1, 0, &last);
+                        }
                     }
                 }
                 if !ok {
